@@ -261,6 +261,12 @@ class CallMixin:
             if self.lenient and f.name.startswith("ext:"):
                 return self.call_opaque(p, VOpaque(f.name[4:]), args, kwargs, node)
             raise Unsupported(f"call of module {f.name} at {w}")
+        if isinstance(f, VRef) and f.cls in self.classes:
+            m = self.find_method(f.cls, "__call__")
+            if m is not None:
+                def go(q):
+                    return self.call_fn(q, self.fn_for(m[0], "__call__"), [f] + args, kwargs, node)
+                return self.raise_if(p, f.z == NULL, "TypeError", w, go)
         r = self.call_extra(p, f, args, kwargs, node)
         if r is not None:
             return r
@@ -501,6 +507,14 @@ class CallMixin:
         obj = self.new_object(p, c.name)
         m = self.find_method(c.name, "__init__")
         if m is None:
+            dc = getattr(d, "dataclass_fields", None)
+            if dc:      # @dataclass: the generated __init__ stores its arguments field by field
+                vals = dict(zip(dc, args))
+                vals.update(kwargs)
+                for fname in dc:
+                    if fname not in vals:
+                        return [(p, Exc("TypeError", f"missing field {fname}"))]
+                    self.write_field(p, obj, fname, vals[fname])
             return [(p, obj)]
         fn = self.fn_for(m[0], "__init__")
         return [(q, obj if not isinstance(r, Exc) else r) for q, r in self.call_fn(p, fn, [obj] + args, kwargs, node)]
